@@ -671,8 +671,13 @@ func (p *Proxy) Unregister(info ServerInfo) bool {
 // DisconnectAll disconnects all current connected players
 // in parallel and waits until all players have been disconnected.
 func (p *Proxy) DisconnectAll(reason component.Component) {
+	// Copy the players while holding the lock: the map itself must not be
+	// iterated after unlocking since disconnecting players unregisters them.
 	p.muP.RLock()
-	players := p.playerIDs
+	players := make([]*connectedPlayer, 0, len(p.playerIDs))
+	for _, player := range p.playerIDs {
+		players = append(players, player)
+	}
 	p.muP.RUnlock()
 
 	var wg sync.WaitGroup
@@ -799,10 +804,9 @@ func (p *Proxy) PlayerCount() int {
 // Players returns all players on the proxy.
 func (p *Proxy) Players() []Player {
 	p.muP.RLock()
-	playerIDs := p.playerIDs
-	p.muP.RUnlock()
-	pls := make([]Player, 0, len(playerIDs))
-	for _, player := range playerIDs {
+	defer p.muP.RUnlock()
+	pls := make([]Player, 0, len(p.playerIDs))
+	for _, player := range p.playerIDs {
 		pls = append(pls, player)
 	}
 	return pls
